@@ -30,6 +30,8 @@ def handle : List String → Option String
     pure ((cmp "linkage_to_bio_tree" Gen.linkage_to_bio_tree.untranslatable (resStr cladeStr (Gen.linkage_to_bio_tree rows labels)) real).getD "ok")
   | ["pyg.getitem", sigs, ix, real] => do
     pure ((getitem (← parseNatLists sigs) (← parseIdxVal ix) real).getD "ok")
+  | ["pyg.getitem.list", sigs, ix, real] => do
+    pure ((getitemList (← parseNatLists sigs) (← parseIdxVal ix) real).getD "ok")
   | ["pyg.chunks", n, size, real] => do
     pure ((chunks (← n.toInt?) (← size.toInt?) real).getD "ok")
   | ["pyg.chk", n, i, real] => do
